@@ -194,6 +194,23 @@ func forEachMultiset(vars []c12Var, n int, f func([]c12Var) bool) {
 type c12Config struct {
 	DOut, DIn uint32
 	Grace     bool
+	// GraceMode: see c12Cell.GraceMode (0 = 1h grace period, uptime per Grace).
+	GraceMode int8
+}
+
+// c12CellVar: the cell-level audit dimensions of one job (see c12Cell).
+type c12CellVar struct {
+	Startup, LateFeed, SameHash bool
+	Numbering, Extras, Hist     int8
+}
+
+// c12ScenSet selects the scenario families of a disposition space.
+type c12ScenSet struct {
+	Base       bool // {none,chain,user} x confirmations
+	BreachCoop bool // also breach and cooperative-close confirmations
+	Faults     bool // go-to-chain step x {dataloss, doublespend, mempoolfee, pubfail}
+	Restarts   bool // restarts at quiescent points (pre, redeliver, unmarked)
+	Deep       bool // thorough: fault x restart products, pre+redeliver
 }
 
 // ---------------------------------------------------------------------------
@@ -209,20 +226,20 @@ type c12Job struct {
 	hs      []c12Var
 	pending bool
 	cfg     c12Config
-	startup bool
-	// breachCoop: also run the breach and cooperative-close confirmations
-	// (judged for panic/error freedom only).
-	breachCoop bool
+	cv      c12CellVar
+	// scen: scenario families (disp); breach and cooperative-close confirmations
+	// are judged for panic/error freedom only.
+	scen c12ScenSet
 }
 
 type c12Space struct {
-	Name     string
-	Kind     string
-	N        int
-	Alpha    c12Alphabet
-	Configs  []c12Config
-	Startups []bool
-	NoBreachCoop bool
+	Name    string
+	Kind    string
+	N       int
+	Alpha   c12Alphabet
+	Configs []c12Config
+	Vars    []c12CellVar
+	Scen    c12ScenSet
 }
 
 func allConfigs(deltas []uint32) []c12Config {
@@ -230,7 +247,7 @@ func allConfigs(deltas []uint32) []c12Config {
 	for _, o := range deltas {
 		for _, i := range deltas {
 			for _, g := range []bool{true, false} {
-				out = append(out, c12Config{o, i, g})
+				out = append(out, c12Config{DOut: o, DIn: i, Grace: g})
 			}
 		}
 	}
@@ -238,7 +255,15 @@ func allConfigs(deltas []uint32) []c12Config {
 }
 
 func (j *c12Job) cell() c12Cell {
-	c := c12Cell{HasPending: j.pending, DOut: j.cfg.DOut, DIn: j.cfg.DIn, GracePassed: j.cfg.Grace, Startup: j.startup}
+	c := c12Cell{HasPending: j.pending, DOut: j.cfg.DOut, DIn: j.cfg.DIn, GracePassed: j.cfg.Grace, Startup: j.cv.Startup,
+		GraceMode: j.cfg.GraceMode, Numbering: j.cv.Numbering, Extras: j.cv.Extras, Hist: j.cv.Hist,
+		SameHash: j.cv.SameHash, LateFeed: j.cv.LateFeed}
+	switch c.GraceMode {
+	case 1, 3:
+		c.GracePassed = false
+	case 2:
+		c.GracePassed = true
+	}
 	for _, v := range j.hs {
 		h := v.c12HTLC
 		if j.kind == "time" {
@@ -285,18 +310,70 @@ func timeScenario(c *c12Cell) c12Scenario {
 	return c12Scenario{Kind: "time", Lo: lo, Hi: hi}
 }
 
-func dispScenarios(c *c12Cell, breachCoop bool) []c12Scenario {
-	confs := []string{"local", "remote"}
+func dispScenarios(c *c12Cell, ss c12ScenSet) []c12Scenario {
+	three := []string{"local", "remote"}
 	if c.HasPending {
-		confs = append(confs, "pending")
+		three = append(three, "pending")
 	}
-	if breachCoop {
-		confs = append(confs, "breach", "coop")
+	confs := three
+	if ss.BreachCoop {
+		confs = append(append([]string{}, three...), "breach", "coop")
 	}
 	var out []c12Scenario
-	for _, pre := range []string{"none", "chain", "user"} {
-		for _, cf := range confs {
-			out = append(out, c12Scenario{Kind: "disp", Pre: pre, Conf: cf, H0: c12H0})
+	if ss.Base {
+		for _, pre := range []string{"none", "chain", "user"} {
+			for _, cf := range confs {
+				out = append(out, c12Scenario{Kind: "disp", Pre: pre, Conf: cf, H0: c12H0})
+			}
+		}
+	}
+	faults := []string{"dataloss", "doublespend", "mempoolfee", "pubfail"}
+	if ss.Faults {
+		for _, f := range faults {
+			for _, pre := range []string{"chain", "user"} {
+				for _, cf := range three {
+					out = append(out, c12Scenario{Kind: "disp", Pre: pre, Conf: cf, H0: c12H0, Fault: f})
+				}
+			}
+		}
+	}
+	if ss.Restarts {
+		if ss.BreachCoop {
+			// The close-type -> trigger mapping of a closing channel, for the two
+			// close kinds that are judged for panic/error freedom only.
+			for _, cf := range []string{"breach", "coop"} {
+				out = append(out, c12Scenario{Kind: "disp", Pre: "none", Conf: cf, H0: c12H0, Restart: "redeliver"})
+				out = append(out, c12Scenario{Kind: "disp", Pre: "user", Conf: cf, H0: c12H0, Restart: "redeliver"})
+			}
+		}
+		for _, cf := range three {
+			for _, pre := range []string{"none", "chain", "user"} {
+				out = append(out, c12Scenario{Kind: "disp", Pre: pre, Conf: cf, H0: c12H0, Restart: "redeliver"})
+				if pre == "none" {
+					continue
+				}
+				out = append(out, c12Scenario{Kind: "disp", Pre: pre, Conf: cf, H0: c12H0, Restart: "pre"})
+				// The data-loss state (StateBroadcastCommit persisted) is the one
+				// in which a restart re-executes the broadcast step.
+				out = append(out, c12Scenario{Kind: "disp", Pre: pre, Conf: cf, H0: c12H0, Restart: "pre", Fault: "dataloss"})
+				out = append(out, c12Scenario{Kind: "disp", Pre: pre, Conf: cf, H0: c12H0, Restart: "redeliver", Fault: "dataloss"})
+			}
+			out = append(out, c12Scenario{Kind: "disp", Pre: "none", Conf: cf, H0: c12H0, Restart: "unmarked"})
+			out = append(out, c12Scenario{Kind: "disp", Pre: "chain", Conf: cf, H0: c12H0, Restart: "unmarked"})
+		}
+	}
+	if ss.Deep {
+		for _, cf := range three {
+			for _, pre := range []string{"chain", "user"} {
+				out = append(out, c12Scenario{Kind: "disp", Pre: pre, Conf: cf, H0: c12H0, Restart: "pre+redeliver"})
+				for _, f := range faults {
+					out = append(out, c12Scenario{Kind: "disp", Pre: pre, Conf: cf, H0: c12H0, Restart: "pre+redeliver", Fault: f})
+					if f != "dataloss" {
+						out = append(out, c12Scenario{Kind: "disp", Pre: pre, Conf: cf, H0: c12H0, Restart: "pre", Fault: f})
+						out = append(out, c12Scenario{Kind: "disp", Pre: pre, Conf: cf, H0: c12H0, Restart: "redeliver", Fault: f})
+					}
+				}
+			}
 		}
 	}
 	return out
@@ -344,33 +421,102 @@ func TestC12(t *testing.T) {
 	uni3 := c12Alphabet{Name: "uniform-dust-3pre", UniformDust: true, Pre: []int8{0, 1, 2}, Fwd: []bool{true, false}}
 	red := c12Alphabet{Name: "reduced(fwd only)", Pre: []int8{0, 1}, Fwd: []bool{true}}
 	red4 := c12Alphabet{Name: "reduced(fwd only, no preimage)", Pre: []int8{0}, Fwd: []bool{true}}
+	// Audit alphabets: the registry's two further "preimage unknown" answers
+	// (3 = invoice without preimage, 4 = ErrNoInvoicesCreated).
+	uni5 := c12Alphabet{Name: "uniform-dust-5pre", UniformDust: true, Pre: []int8{0, 1, 2, 3, 4}, Fwd: []bool{true, false}}
+	fullReg := c12Alphabet{Name: "full(registry answers 3,4)", Pre: []int8{3, 4}, Fwd: []bool{true, false}}
+	fullReg3 := c12Alphabet{Name: "full(pre 1,3,4)", Pre: []int8{1, 3, 4}, Fwd: []bool{true, false}}
+	outReg := c12Alphabet{Name: "outputs only, pre 1,3", UniformDust: true, OnlyOutput: true, Pre: []int8{1, 3}, Fwd: []bool{true, false}}
+	uniReg := c12Alphabet{Name: "uniform-dust, pre 1,3,4", UniformDust: true, Pre: []int8{1, 3, 4}, Fwd: []bool{true, false}}
 	with := func(a c12Alphabet, exp int) c12Alphabet { a.ExpClasses = exp; return a }
 
 	deltas := []uint32{1, 5, 10}
 	cfgAll := allConfigs(deltas)
-	cfgQ := []c12Config{{5, 5, true}, {1, 10, false}}
-	cfgT := []c12Config{{5, 5, true}, {1, 10, false}, {10, 1, true}, {5, 5, false}, {1, 10, true}, {10, 1, false}}
-	cfg1 := []c12Config{{5, 5, true}}
+	cfgQ := []c12Config{{DOut: 5, DIn: 5, Grace: true}, {DOut: 1, DIn: 10, Grace: false}}
+	cfgT := []c12Config{{DOut: 5, DIn: 5, Grace: true}, {DOut: 1, DIn: 10, Grace: false}, {DOut: 10, DIn: 1, Grace: true},
+		{DOut: 5, DIn: 5, Grace: false}, {DOut: 1, DIn: 10, Grace: true}, {DOut: 10, DIn: 1, Grace: false}}
+	cfg1 := []c12Config{{DOut: 5, DIn: 5, Grace: true}}
+	// Grace-period special values: exact threshold (1), lnd's default 0 (2), 0 at
+	// the start instant (3).
+	graceCfgs := func(pairs [][2]uint32) []c12Config {
+		var out []c12Config
+		for _, p := range pairs {
+			for _, m := range []int8{1, 2, 3} {
+				out = append(out, c12Config{DOut: p[0], DIn: p[1], GraceMode: m})
+			}
+		}
+		return out
+	}
+	cfgGraceQ := append(graceCfgs([][2]uint32{{5, 5}, {1, 10}, {10, 1}}), cfgQ...)
+	var allPairs [][2]uint32
+	for _, o := range deltas {
+		for _, i := range deltas {
+			allPairs = append(allPairs, [2]uint32{o, i})
+		}
+	}
+	cfgGraceT := append(graceCfgs(allPairs), cfgT...)
+	cfg2G := []c12Config{{DOut: 5, DIn: 5, Grace: true}, {DOut: 1, DIn: 10, Grace: false}, {DOut: 5, DIn: 5, GraceMode: 2}}
+
+	plain := []c12CellVar{{}}
+	feeds2 := []c12CellVar{{}, {Startup: true}}
+	base := c12ScenSet{Base: true, BreachCoop: true}
+	base3 := c12ScenSet{Base: true}
+	varsTime1 := []c12CellVar{{}, {Startup: true}, {LateFeed: true}, {Numbering: 1}, {Numbering: 1, Startup: true}}
+	varsDisp1 := []c12CellVar{{LateFeed: true}, {Numbering: 1}, {Extras: 1}, {Hist: 1}, {Hist: 3},
+		{Numbering: 1, Extras: 1, Hist: 2, LateFeed: true}}
 
 	var spaces []c12Space
 	if !thorough {
 		spaces = []c12Space{
-			{"time/1-htlc", "time", 1, with(uni3, 3), cfgAll, []bool{false, true}, false},
-			{"disp/1-htlc", "disp", 1, with(full1, 3), cfgT, []bool{false, true}, false},
-			{"time/2-htlc", "time", 2, with(uni, 3), cfgAll, []bool{false}, false},
-			{"disp/2-htlc", "disp", 2, with(full2, 2), cfgQ, []bool{false}, true},
-			{"disp/3-htlc", "disp", 3, with(red4, 1), cfg1, []bool{false}, true},
+			{Name: "time/1-htlc", Kind: "time", N: 1, Alpha: with(uni3, 3), Configs: cfgAll, Vars: feeds2},
+			{Name: "disp/1-htlc", Kind: "disp", N: 1, Alpha: with(full1, 3), Configs: cfgT, Vars: feeds2, Scen: base},
+			{Name: "time/2-htlc", Kind: "time", N: 2, Alpha: with(uni, 3), Configs: cfgAll, Vars: plain},
+			{Name: "disp/2-htlc", Kind: "disp", N: 2, Alpha: with(full2, 2), Configs: cfgQ, Vars: plain, Scen: base3},
+			{Name: "disp/3-htlc", Kind: "disp", N: 3, Alpha: with(red4, 1), Configs: cfg1, Vars: plain, Scen: base3},
+			// --- audit dimensions ---
+			{Name: "time/1-htlc/special", Kind: "time", N: 1, Alpha: with(uni5, 3), Configs: cfgGraceQ, Vars: varsTime1},
+			{Name: "disp/1-htlc/registry", Kind: "disp", N: 1, Alpha: with(fullReg, 3), Configs: cfgQ, Vars: plain, Scen: base},
+			{Name: "disp/1-htlc/variants", Kind: "disp", N: 1, Alpha: with(full2, 2), Configs: cfgQ, Vars: varsDisp1, Scen: base},
+			{Name: "disp/1-htlc/faults+restarts", Kind: "disp", N: 1, Alpha: with(full2, 2), Configs: cfgQ, Vars: plain,
+				Scen: c12ScenSet{BreachCoop: true, Faults: true, Restarts: true}},
+			{Name: "time/2-htlc/special", Kind: "time", N: 2, Alpha: with(outReg, 2), Configs: cfg2G,
+				Vars: []c12CellVar{{}, {SameHash: true}, {LateFeed: true, SameHash: true}}},
+			{Name: "disp/2-htlc/variants", Kind: "disp", N: 2, Alpha: with(red, 1), Configs: cfg1,
+				Vars: []c12CellVar{{SameHash: true}, {Numbering: 1}}, Scen: base3},
+			{Name: "disp/2-htlc/restarts", Kind: "disp", N: 2, Alpha: with(red4, 1), Configs: cfg1, Vars: plain,
+				Scen: c12ScenSet{Restarts: true}},
 		}
 	} else {
 		spaces = []c12Space{
-			{"time/1-htlc", "time", 1, with(uni3, 3), cfgAll, []bool{false, true}, false},
-			{"disp/1-htlc", "disp", 1, with(full1, 3), cfgAll, []bool{false, true}, false},
-			{"time/2-htlc", "time", 2, with(uni3, 3), cfgAll, []bool{false, true}, false},
-			{"disp/2-htlc", "disp", 2, with(full1, 2), cfgT, []bool{false}, false},
-			{"disp/2-htlc/startup-feed", "disp", 2, with(full1, 2), cfg1, []bool{true}, false},
-			{"disp/3-htlc", "disp", 3, with(red, 2), cfg1, []bool{false}, true},
-			{"time/3-htlc", "time", 3, with(uniOut, 3), cfgAll, []bool{false}, false},
-			{"disp/4-htlc", "disp", 4, with(red4, 1), cfg1, []bool{false}, true},
+			{Name: "time/1-htlc", Kind: "time", N: 1, Alpha: with(uni3, 3), Configs: cfgAll, Vars: feeds2},
+			{Name: "disp/1-htlc", Kind: "disp", N: 1, Alpha: with(full1, 3), Configs: cfgAll, Vars: feeds2, Scen: base},
+			{Name: "time/2-htlc", Kind: "time", N: 2, Alpha: with(uni3, 3), Configs: cfgAll, Vars: feeds2},
+			{Name: "disp/2-htlc", Kind: "disp", N: 2, Alpha: with(full1, 2), Configs: cfgT, Vars: plain, Scen: base},
+			{Name: "disp/2-htlc/startup-feed", Kind: "disp", N: 2, Alpha: with(full1, 2), Configs: cfg1, Vars: []c12CellVar{{Startup: true}}, Scen: base},
+			{Name: "disp/3-htlc", Kind: "disp", N: 3, Alpha: with(red, 2), Configs: cfg1, Vars: plain, Scen: base3},
+			{Name: "time/3-htlc", Kind: "time", N: 3, Alpha: with(uniOut, 3), Configs: cfgAll, Vars: plain},
+			{Name: "disp/4-htlc", Kind: "disp", N: 4, Alpha: with(red4, 1), Configs: cfg1, Vars: plain, Scen: base3},
+			// --- audit dimensions ---
+			{Name: "time/1-htlc/special", Kind: "time", N: 1, Alpha: with(uni5, 3), Configs: cfgGraceT,
+				Vars: append(append([]c12CellVar{}, varsTime1...), c12CellVar{Numbering: 1, LateFeed: true})},
+			{Name: "disp/1-htlc/registry", Kind: "disp", N: 1, Alpha: with(fullReg, 3), Configs: cfgT, Vars: feeds2, Scen: base},
+			{Name: "disp/1-htlc/variants", Kind: "disp", N: 1, Alpha: with(full1, 3), Configs: cfgQ,
+				Vars: append(append([]c12CellVar{}, varsDisp1...), c12CellVar{Hist: 2}, c12CellVar{Numbering: 1, Startup: true},
+					c12CellVar{Extras: 1, Hist: 3}), Scen: base},
+			{Name: "disp/1-htlc/faults+restarts", Kind: "disp", N: 1, Alpha: with(full1, 3), Configs: cfgT, Vars: plain,
+				Scen: c12ScenSet{BreachCoop: true, Faults: true, Restarts: true, Deep: true}},
+			{Name: "disp/1-htlc/faults+restarts/variants", Kind: "disp", N: 1, Alpha: with(full2, 2), Configs: cfgQ,
+				Vars: []c12CellVar{{Numbering: 1}, {Extras: 1, Hist: 1}, {LateFeed: true}},
+				Scen: c12ScenSet{BreachCoop: true, Faults: true, Restarts: true}},
+			{Name: "time/2-htlc/special", Kind: "time", N: 2, Alpha: with(uniReg, 3), Configs: cfgGraceQ,
+				Vars: []c12CellVar{{}, {SameHash: true}, {LateFeed: true, SameHash: true}, {Numbering: 1}}},
+			{Name: "disp/2-htlc/registry", Kind: "disp", N: 2, Alpha: with(fullReg3, 1), Configs: cfg1, Vars: plain, Scen: base3},
+			{Name: "disp/2-htlc/variants", Kind: "disp", N: 2, Alpha: with(full2, 1), Configs: cfgQ,
+				Vars: []c12CellVar{{SameHash: true}, {Numbering: 1}, {Extras: 1, Hist: 1}, {LateFeed: true}}, Scen: base3},
+			{Name: "disp/2-htlc/faults+restarts", Kind: "disp", N: 2, Alpha: with(red, 1), Configs: cfg1, Vars: plain,
+				Scen: c12ScenSet{Faults: true, Restarts: true}},
+			{Name: "disp/3-htlc/restarts", Kind: "disp", N: 3, Alpha: with(red4, 1), Configs: cfg1,
+				Vars: []c12CellVar{{}, {SameHash: true}}, Scen: c12ScenSet{Restarts: true}},
 		}
 	}
 	if only := os.Getenv("C12_ONLY"); only != "" {
@@ -481,7 +627,7 @@ func TestC12(t *testing.T) {
 			report("time", cell, sc, obs, viols)
 			return
 		}
-		for _, sc := range dispScenarios(&cell, j.breachCoop) {
+		for _, sc := range dispScenarios(&cell, j.scen) {
 			res, obs, viols := runDisp(cell, sc, nil)
 			st.execs.Add(1)
 			st.dispExecs.Add(1)
@@ -547,9 +693,19 @@ func TestC12(t *testing.T) {
 					return false
 				}
 				cp := append([]c12Var{}, hs...)
+				samePre := true
+				for _, h := range cp[1:] {
+					if h.Pre != cp[0].Pre {
+						samePre = false
+					}
+				}
 				for _, cfg := range sp.Configs {
-					for _, su := range sp.Startups {
-						jobs <- &c12Job{kind: sp.Kind, hs: cp, pending: pending, cfg: cfg, startup: su, breachCoop: !sp.NoBreachCoop}
+					for _, cv := range sp.Vars {
+						if cv.SameHash && !samePre {
+							// one hash has one preimage-knowledge value
+							continue
+						}
+						jobs <- &c12Job{kind: sp.Kind, hs: cp, pending: pending, cfg: cfg, cv: cv, scen: sp.Scen}
 					}
 				}
 				return true
@@ -562,11 +718,11 @@ func TestC12(t *testing.T) {
 		}
 		si := map[string]any{
 			"space": sp.Name, "htlcs": sp.N, "alphabet": sp.Alpha.Name, "configs": len(sp.Configs),
-			"feeds": len(sp.Startups), "cells": st.cells.Load() - cellsBefore,
+			"feeds": len(sp.Vars), "cells": st.cells.Load() - cellsBefore,
 			"executions": st.execs.Load() - before, "complete": complete, "wall_s": time.Since(t0).Seconds(),
 		}
 		spaceInfo = append(spaceInfo, si)
-		fmt.Printf("INFO space %-12s cells=%d executions=%d complete=%v wall=%.1fs\n", sp.Name,
+		fmt.Printf("INFO space %-28s cells=%d executions=%d complete=%v wall=%.1fs\n", sp.Name,
 			si["cells"], si["executions"], complete, time.Since(t0).Seconds())
 		if !complete {
 			break
@@ -641,6 +797,10 @@ func c12ReplayFile(t *testing.T, path string) {
 	info("replaying %s scenario %+v", sc.Kind, sc)
 	info("config: delta_out=%d delta_in=%d grace_passed=%v pending_commit=%v startup_feed=%v",
 		cell.DOut, cell.DIn, cell.GracePassed, cell.HasPending, cell.Startup)
+	cell.number()
+	gr, up := cell.graceAndUptime()
+	info("dimensions: grace_period=%v uptime=%v numbering=%d (0: ids from 1, outputs 20+/40+/60+; 1: zero-based) extras=%d hist=%d same_hash=%v late_feed=%v fault=%q restart=%q",
+		gr, up, cell.Numbering, cell.Extras, cell.Hist, cell.SameHash, cell.LateFeed, sc.Fault, sc.Restart)
 	for k, h := range cell.HTLCs {
 		info("HTLC #%d: %s idx=%d expiry=%d (local=%s remote=%s pending=%s; d=dust n=output -=absent)",
 			k, h.desc(cell.HasPending), h.Idx, h.Exp, presCh(h.L), presCh(h.R), presCh(h.P))
